@@ -1,6 +1,7 @@
 package props
 
 import (
+	"errors"
 	"fmt"
 	"sync"
 
@@ -59,6 +60,24 @@ func c05Judge(c *core.Ctx, b []byte, what string, corruption bool) {
 		c.Count("detected_by_decoder", 1)
 
 		return
+	}
+	if h := gen.HashBytes(b); h%5 == 0 && len(rm.TLVs) > 0 && len(rm.TLVs) <= 64 {
+		// earlier ordinary use of the decoded message: an attribute walk whose callback fails or panics (recovered by
+		// the caller, as net/http-style servers do). The message bytes did not change, so neither does the verdict.
+		pick := rm.TLVs[int(h>>8)%len(rm.TLVs)].Type
+		if pick == 0x8020 {
+			pick = 0x0020
+		}
+		_, _ = safely(func() {
+			_ = m.ForEach(stun.AttrType(pick), func(*stun.Message) error {
+				if h&0x10000 != 0 {
+					panic("callback gives up")
+				}
+
+				return errors.New("callback error")
+			})
+		})
+		c.Count("checks_after_aborted_foreach", 1)
 	}
 	before := viewOf(m)
 	var cerr error
@@ -235,6 +254,14 @@ func c05(c *core.Ctx) {
 	// (c) arbitrary decodable messages with FINGERPRINT attributes of any length and position
 	c.Section("arbitrary", c.N(10000, 3000000), func(_ int64, r *gen.Rand) {
 		spec := r.Spec(6, 40)
+		if r.Chance(1, 60) {
+			// more than a thousand (tiny) attributes in front: FINGERPRINT is found wherever it is
+			spec.Attrs = spec.Attrs[:0]
+			for k := 1000 + r.Intn(200); k > 0; k-- {
+				spec.Attrs = append(spec.Attrs, ref.Attr{Type: r.PickU16([]uint16{0x8022, 0x0006, 0x7f10, 0x0014, 0x0000}), Value: r.Bytes(r.Intn(4))})
+			}
+			c.Count("messages_with_1000_attributes", 1)
+		}
 		nfp := 1 + r.Intn(2)
 		for k := 0; k < nfp; k++ {
 			n := 4
@@ -312,8 +339,19 @@ func c05(c *core.Ctx) {
 			return
 		}
 		crc := ref.CRC32(wire[:len(wire)-8])
+		// values other procedures would produce: header length not yet counting the FINGERPRINT attribute (rfc3489bis
+		// drafts), header length of an empty body, CRC that also covers the attribute's own header, CRC of the body only
+		early := append([]byte(nil), wire[:len(wire)-8]...)
+		el := len(wire) - 20 - 8
+		early[2], early[3] = byte(el>>8), byte(el)
+		zeroLen := append([]byte(nil), wire[:len(wire)-8]...)
+		zeroLen[2], zeroLen[3] = 0, 0
 		for k, v := range []uint32{crc, crc ^ 0x5354554f, crc ^ 0x4e555453, ^(crc ^ 0x5354554e), (crc ^ 0x5354554e) + 1,
-			(crc^0x5354554e)<<8 | (crc^0x5354554e)>>24, 0, 0x5354554e} {
+			(crc^0x5354554e)<<8 | (crc^0x5354554e)>>24, 0, 0x5354554e,
+			ref.CRC32(early) ^ 0x5354554e, ref.CRC32(zeroLen) ^ 0x5354554e, ref.CRC32(wire[:len(wire)-4]) ^ 0x5354554e, ref.CRC32(wire[20:len(wire)-8]) ^ 0x5354554e} {
+			if v == crc^0x5354554e {
+				continue // happens to be the right value
+			}
 			f := append([]byte(nil), wire...)
 			n := len(f)
 			f[n-4], f[n-3], f[n-2], f[n-1] = byte(v>>24), byte(v>>16), byte(v>>8), byte(v)
